@@ -31,11 +31,18 @@ func (p *Processor) OpenCDR(
 	if partialRecord {
 		// TODO partial record
 		cdr := ue.Cdr[sessionId]
+		if cdr == nil || cdr.ChargingFunctionRecord == nil {
+			return nil, fmt.Errorf("no open CDR for charging session %s", sessionId)
+		}
 		partialRecordSeqNum := self.RecordSequenceNumber[sessionId]
 		partialRecordSeqNum++
 		cdr.ChargingFunctionRecord.RecordSequenceNumber = &(partialRecordSeqNum)
 
 		return cdr, nil
+	}
+
+	if chargingData.NfConsumerIdentification == nil {
+		return nil, fmt.Errorf("nfConsumerIdentification is missing")
 	}
 
 	chfCdr.RecordType = cdrType.RecordType{
@@ -74,22 +81,22 @@ func (p *Processor) OpenCDR(
 	case "imsi":
 		chfCdr.SubscriberIdentifier = &cdrType.SubscriptionID{
 			SubscriptionIDType: cdrType.SubscriptionIDType{Value: cdrType.SubscriptionIDTypePresentENDUSERIMSI},
-			SubscriptionIDData: asn.UTF8String(ue.Supi[5:]),
+			SubscriptionIDData: asn.UTF8String(strings.TrimPrefix(ue.Supi, "imsi-")),
 		}
 	case "nai":
 		chfCdr.SubscriberIdentifier = &cdrType.SubscriptionID{
 			SubscriptionIDType: cdrType.SubscriptionIDType{Value: cdrType.SubscriptionIDTypePresentENDUSERNAI},
-			SubscriptionIDData: asn.UTF8String(ue.Supi[4:]),
+			SubscriptionIDData: asn.UTF8String(strings.TrimPrefix(ue.Supi, "nai-")),
 		}
 	case "gci":
 		chfCdr.SubscriberIdentifier = &cdrType.SubscriptionID{
 			SubscriptionIDType: cdrType.SubscriptionIDType{Value: cdrType.SubscriptionIDTypePresentENDUSERNAI},
-			SubscriptionIDData: asn.UTF8String(ue.Supi[4:]),
+			SubscriptionIDData: asn.UTF8String(strings.TrimPrefix(ue.Supi, "gci-")),
 		}
 	case "gli":
 		chfCdr.SubscriberIdentifier = &cdrType.SubscriptionID{
 			SubscriptionIDType: cdrType.SubscriptionIDType{Value: cdrType.SubscriptionIDTypePresentENDUSERNAI},
-			SubscriptionIDData: asn.UTF8String(ue.Supi[4:]),
+			SubscriptionIDData: asn.UTF8String(strings.TrimPrefix(ue.Supi, "gli-")),
 		}
 	}
 
@@ -171,25 +178,31 @@ func (p *Processor) OpenCDR(
 	}
 	if pduSessionInfo := chargingData.PDUSessionChargingInformation; pduSessionInfo != nil {
 		logger.ChargingdataPostLog.Debugln("PDU Session Charging Event")
-		chfCdr.PDUSessionChargingInformation = &cdrType.PDUSessionChargingInformation{
+		pduCdr := &cdrType.PDUSessionChargingInformation{
 			PDUSessionChargingID: cdrType.ChargingID{
 				Value: int64(pduSessionInfo.ChargingId),
 			},
-			PDUSessionId: cdrType.PDUSessionId{
-				Value: int64(pduSessionInfo.PduSessionInformation.PduSessionID),
-			},
-			NetworkSliceInstanceID: &cdrType.SingleNSSAI{
-				SST: cdrType.SliceServiceType{
-					Value: int64(pduSessionInfo.PduSessionInformation.NetworkSlicingInfo.SNSSAI.Sst),
-				},
-				SD: &cdrType.SliceDifferentiator{
-					Value: []byte(pduSessionInfo.PduSessionInformation.NetworkSlicingInfo.SNSSAI.Sd),
-				},
-			},
-			DataNetworkNameIdentifier: &cdrType.DataNetworkNameIdentifier{
-				Value: asn.IA5String(pduSessionInfo.PduSessionInformation.DnnId),
-			},
 		}
+		// the nested information elements are optional in the request
+		if info := pduSessionInfo.PduSessionInformation; info != nil {
+			pduCdr.PDUSessionId = cdrType.PDUSessionId{
+				Value: int64(info.PduSessionID),
+			}
+			if info.NetworkSlicingInfo != nil && info.NetworkSlicingInfo.SNSSAI != nil {
+				pduCdr.NetworkSliceInstanceID = &cdrType.SingleNSSAI{
+					SST: cdrType.SliceServiceType{
+						Value: int64(info.NetworkSlicingInfo.SNSSAI.Sst),
+					},
+					SD: &cdrType.SliceDifferentiator{
+						Value: []byte(info.NetworkSlicingInfo.SNSSAI.Sd),
+					},
+				}
+			}
+			pduCdr.DataNetworkNameIdentifier = &cdrType.DataNetworkNameIdentifier{
+				Value: asn.IA5String(info.DnnId),
+			}
+		}
+		chfCdr.PDUSessionChargingInformation = pduCdr
 	}
 
 	chfCdr.ChargingID.Value = int64(chargingData.ChargingId)
